@@ -185,14 +185,17 @@ func VerifC17Ballots() {
 			_, ra := vRead("neofs", "config", []byte("keyA"))
 			_, rb := vRead("neofs", "config", []byte("keyB"))
 			vAssert((firedA > 0) == (ra != nil) && (firedB > 0) == (rb != nil), "C17/effect-exactly-when-2n/3+1-distinct-members-voted")
+			vAssert((firedA > 0) == (ra != nil) && (firedB > 0) == (rb != nil), "C03/vote-collected-action-needs-2n/3+1-distinct-Alphabet-votes")
 		case 1:
 			vAssert(vGasOf(user) == paid && vGasOf(self) == 1000-paid, "C17/effect-exactly-when-2n/3+1-distinct-members-voted")
+			vAssert(vGasOf(user) == paid && vGasOf(self) == 1000-paid, "C03/vote-collected-action-needs-2n/3+1-distinct-Alphabet-votes")
 			// the same observation as C19's accounting clause (these jobs are also registered under C19)
 			vAssert(vGasOf(user) == paid && vGasOf(self) == 1000-paid, "C19/cheque-paid-exactly-once-per-approval")
 		case 2:
 			_, r := vRead("neofs", "alphabetList")
 			ln := len(r.([]struct{ k []byte }))
 			vAssert((firedA+firedB > 0) == (ln == 1), "C17/effect-exactly-when-2n/3+1-distinct-members-voted")
+			vAssert((firedA+firedB > 0) == (ln == 1), "C03/vote-collected-action-needs-2n/3+1-distinct-Alphabet-votes")
 			if firedA+firedB > 0 {
 				return // the electorate changed: end of this history
 			}
@@ -207,6 +210,7 @@ func VerifC17Ballots() {
 				want++
 			}
 			vAssert(ln == want, "C17/effect-exactly-when-2n/3+1-distinct-members-voted")
+			vAssert(ln == want, "C03/vote-collected-action-needs-2n/3+1-distinct-Alphabet-votes")
 			if removedA && removedB {
 				return
 			}
